@@ -34,6 +34,9 @@ func (o Op) String() string {
 	case "delete":
 		return fmt.Sprintf("delete(%s/%s)", o.Store, o.ID)
 	case "deletewhere":
+		if o.Field == FNote {
+			return fmt.Sprintf("deleteWhere(%s, note = %q)", o.Store, o.Spec.Note)
+		}
 		return fmt.Sprintf("deleteWhere(%s, name = %q)", o.Store, o.Spec.Name)
 	case "rcset":
 		return fmt.Sprintf("rcset(%s/%s.%s %v =%d)", o.Store, o.ID, o.Field, o.Keys, o.Count)
@@ -74,6 +77,9 @@ type TxSpec struct {
 	Fail              bool `json:"fail,omitempty"`   // the caller's function returns an error after its operations succeeded
 	Batch             bool `json:"batch,omitempty"`  // use Db.Batch instead of Db.Update
 	Nested            bool `json:"nested,omitempty"` // run the body through a second Db.Update on the already bound context
+	// SystemOutside (with System): the caller hands a system context to Db.Update / Db.Batch instead of deriving one
+	// inside the transaction function
+	SystemOutside bool `json:"systemOutside,omitempty"`
 	// LastInPreCommit: the last operation is not issued by the body itself but from a pre-commit action it registers
 	// (the application's "do this just before the commit" hook); a rejection there fails the commit
 	LastInPreCommit bool `json:"lastInPreCommit,omitempty"`
@@ -87,6 +93,9 @@ func (t TxSpec) String() string {
 	flags := ""
 	if t.System {
 		flags += " [system ctx]"
+		if t.SystemOutside {
+			flags += " [handed to the transaction from outside]"
+		}
 	}
 	if t.DeriveSystemFirst {
 		flags += " [system ctx derived and discarded first]"
@@ -171,6 +180,9 @@ func (m *Model) Apply(op Op, system bool) []string {
 	case "delete":
 		return m.Delete(op.Store, op.ID, system)
 	case "deletewhere":
+		if op.Field == FNote {
+			return m.DeleteWhereField(op.Store, FNote, op.Spec.Note, system)
+		}
 		return m.DeleteWhere(op.Store, op.Spec.Name, system)
 	}
 	return m.applyLink(op)
@@ -315,6 +327,9 @@ func (w *World) Exec(ctx boltz.MutateContext, op Op) (ExecResult, error) {
 		return res, w.Stores[op.Store].DeleteById(ctx, op.ID)
 	case "deletewhere":
 		filter := "name = " + QuoteZql(op.Spec.Name)
+		if op.Field == FNote {
+			filter = "note = " + QuoteZql(op.Spec.Note) // a non-unique field: the filter may match several entities
+		}
 		if isKid {
 			return res, kidStore.DeleteWhere(ctx, filter)
 		}
@@ -384,7 +399,7 @@ func RunTxHooks(w *World, m *Model, tx TxSpec, beforeTx func(ctx boltz.MutateCon
 		if pre != nil {
 			pre(ctx)
 		}
-		if tx.System {
+		if tx.System && !tx.SystemOutside {
 			ctx = ctx.GetSystemContext()
 		} else if tx.DeriveSystemFirst {
 			_ = ctx.GetSystemContext()
@@ -436,6 +451,9 @@ func RunTxHooks(w *World, m *Model, tx TxSpec, beforeTx func(ctx boltz.MutateCon
 		run = func(ctx boltz.MutateContext) error { return w.Z.Db.Update(ctx, body) }
 	}
 	topCtx := NewCtx()
+	if tx.System && tx.SystemOutside {
+		topCtx = topCtx.GetSystemContext()
+	}
 	if beforeTx != nil {
 		beforeTx(topCtx)
 	}
